@@ -458,6 +458,29 @@ def _silent_write_scan(F, R, rule, want_body):
     return n
 
 
+def r14_entry_points_leave_the_verdict_to_the_dispatcher(ctx):
+    """whether a name is bound is decided in one place per dispatcher: in the registry module the `method not found` code
+    is built only by Methods::inner_call (on its lookup-miss arm, R4/R5), and none of the module's entry points (call,
+    raw_json_request, subscribe, ...) builds `invalid params` or `method not found` itself. An entry point that pre-judges
+    the request (params of an unusual shape, a name bound to the "wrong" kind of handler) answers a bound name without
+    dispatching it, or an unbound one with another error - and differently from the other entry points."""
+    F, R = ctx.F, ctx.R
+    n = 0
+    for b in F.real_bodies():
+        if b.crate != CORE or is_test_body(b) or not b.path.startswith("jsonrpsee_core::server::rpc_module::"):
+            continue
+        for bi, blk in enumerate(b.blocks):
+            if bi not in b.reachable or blk.get("cleanup"):
+                continue
+            for st in blk["st"]:
+                if st["s"] == "assign" and st["rv"]["k"] == "agg" and (st["rv"].get("adt") or "").endswith("ErrorCode") and st["rv"].get("variant") in ("MethodNotFound", "InvalidParams"):
+                    n += 1
+                    R.fn(b)
+                    ok = st["rv"]["variant"] == "MethodNotFound" and bool(re.search(r"::Methods::inner_call::\{closure#0\}$", b.path))
+                    R.check(ok, "C13.R14", "%s:%s" % (fkey(b), st["rv"]["variant"]), "MethodNotFound is built by the dispatcher", "%s builds ErrorCode::%s itself: the request is judged before (or instead of) the registry lookup of the dispatcher, so a bound name can go undispatched / an unbound one is not answered `method not found`, depending on the entry point" % (short(b.path), st["rv"]["variant"]), "%s:%d" % (b.file, st["sp"][0]))
+    R.floor("C13.R14", n, 1, "constructions of MethodNotFound / InvalidParams in the registry module")
+
+
 def r9_no_silent_table_writes(ctx):
     """every write into the method table either cannot replace/keep silently (VacantEntry::insert behind an Occupied =>
     AlreadyRegistered arm) or is an insert after a successful verify (R1). The entry API's keep-or-overwrite operations
@@ -483,7 +506,7 @@ def rgen_generated_registrations(ctx):
     return c17.w_rules(ctx)
 
 
-LIB_RULES = [r1_insert_after_verify, r2_all_or_nothing, r3_copy_on_write, r4_dispatch_and_remove, r5_not_found_iff_unbound, r6_sibling_registrars, r7_names_spelled_alike, r8_insert_fails_only_as_prechecked, r9_no_silent_table_writes, r10_lookup_is_one_exact_map_access, r11_taken_means_is_a_key, r12_no_borrowed_names, r13_merge_succeeds_only_after_checking_every_name]
+LIB_RULES = [r14_entry_points_leave_the_verdict_to_the_dispatcher, r1_insert_after_verify, r2_all_or_nothing, r3_copy_on_write, r4_dispatch_and_remove, r5_not_found_iff_unbound, r6_sibling_registrars, r7_names_spelled_alike, r8_insert_fails_only_as_prechecked, r9_no_silent_table_writes, r10_lookup_is_one_exact_map_access, r11_taken_means_is_a_key, r12_no_borrowed_names, r13_merge_succeeds_only_after_checking_every_name]
 CONFIGS_QUICK = ["libs-all", "corpus"]
 CONFIGS_THOROUGH = ["libs-all", "facade-full", "corpus"]
 
